@@ -122,6 +122,13 @@ def decode_expression(block, byteorder, ptr):
         elif op == 0x23:  # DW_OP_plus_uconst
             v, i = _uleb(block, i)
             ops.append((op, v))
+        elif 0x70 <= op <= 0x8F:  # DW_OP_breg0..31: SLEB128 offset
+            v, i = _sleb(block, i)
+            ops.append(("OpBReg", op - 0x70, v))
+        elif op == 0x92:  # DW_OP_bregx: ULEB128 register, SLEB128 offset
+            r, i = _uleb(block, i)
+            v, i = _sleb(block, i)
+            ops.append((op, r, v))
         else:
             raise OutsideAlphabet("expression opcode 0x%x" % op)
     return tuple(ops)
